@@ -87,6 +87,11 @@ def mk_and(a, b):
         return FALSE
     if a == b:
         return a
+    # `Some(Less)` of a partial_cmp is "ordered and <": an ordered comparison already says the operands are ordered
+    for u, c in ((a, b), (b, a)):
+        if u[0] == 'not' and u[1][0] == 'unord' and c[0] == 'fcmp' and c[1] in ('lt', 'le', 'gt', 'ge', 'eq') and \
+                {c[2], c[3]} == {u[1][1], u[1][2]}:
+            return c
     return ('and', a, b)
 
 
@@ -99,6 +104,11 @@ def mk_or(a, b):
         return TRUE
     if a == b:
         return a
+    # `Some(Less) | Some(Equal)`: < or = of one pair is ≤
+    if a[0] == 'fcmp' and b[0] == 'fcmp' and a[2:] == b[2:]:
+        m = {frozenset(('lt', 'eq')): 'le', frozenset(('gt', 'eq')): 'ge'}.get(frozenset((a[1], b[1])))
+        if m is not None:
+            return ('fcmp', m, a[2], a[3])
     return ('or', a, b)
 
 
